@@ -24,6 +24,8 @@ PROGRAMS = [
     ("lex", "\ufeffDISPLAY(\"bom\")\n"),
     ("ok", "DISPLAY(\"crlf\")\r\nDISPLAY(2)\r\n"),
     ("ok", "DISPLAY(\"no final newline\")"),
+    ("ok", "DISPLAY(\"a\r\nb\")\r\nDISPLAY(\"c\")\r\n"),            # a CR LF inside a string literal: the CR is part of the text
+    ("lex", "x <- 1 \\\r\nDISPLAY(x)\r\n"),                          # backslash, CR, LF: not a continuation (in every mode)
     ("ok", "// only a comment"),
     ("parse", "DISPLAY(1)\nDISPLAY((2)\n"),
     ("parse", "RETURN 1\n"),
@@ -43,8 +45,8 @@ def run_cli(binpath, src, mode, debug, check, stdin_bytes):
         args = [binpath]
         inp = stdin_bytes
         if mode == "file":
-            with open(os.path.join(d, "main.ap"), "w", encoding="utf-8") as f:
-                f.write(src)
+            with open(os.path.join(d, "main.ap"), "wb") as f:
+                f.write(src.encode("utf-8"))
             args.append("main.ap")
         elif mode == "eval":
             args += ["-e", src]
@@ -57,7 +59,7 @@ def run_cli(binpath, src, mode, debug, check, stdin_bytes):
             args += ["--debug", debug]
         try:
             p = subprocess.run(args, cwd=d, input=inp if inp is not None else b"", stdout=subprocess.PIPE, stderr=subprocess.PIPE,
-                               timeout=60, env=dict(C.ENV, RUST_BACKTRACE="0", NO_COLOR="1"))
+                               timeout=60, env=dict(C.ENV, RUST_BACKTRACE="0", NO_COLOR="1"), preexec_fn=C.limit_memory)
             return "S%d %s E%d" % (p.returncode, C.hx(p.stdout) if p.stdout else "-", 1 if p.stderr else 0)
         except subprocess.TimeoutExpired:
             return "TIMEOUT"
